@@ -220,9 +220,9 @@ def run : Prog → Option Path → KSt → CallRes × KSt × List Op
       | .ok v => Op.simple q v none ans
       | .error e => Op.simple q .null (some e) ans
     (r, s', op :: ops)
-  | .write b k, t, s =>
+  | .write b mt k, t, s =>
     match t with
-    | some p => run k t (liftSp s fun sp => { sp with pending := (p, b, sp.clock) :: sp.pending, clock := sp.clock + 1 })
+    | some p => run k t (liftSp s fun sp => { sp with pending := (p, b, mt.getD sp.clock) :: sp.pending, clock := sp.clock + 1 })
     | none => run k t s
   | .buildFile path cmp fname args kwargs body k, t, s =>
     match Spec.bfSetup s.sp path with
